@@ -6,6 +6,10 @@ ALL = ['C%02d' % i for i in range(1, 21)]
 
 # id -> (engine, technique, level text, level note, design ref)
 CLAIMED = {
+ 'C09': ('E3-hypothesis', 'property-based testing with an independent archive reader (Python zipfile) and differential comparison of package members against the plain formats',
+         'Generated documents with hostile metadata, headings, TOC and images (existing, missing, remote, titled, reference-defined) are packaged as EPUB, ODT, TextBundle and ITMZ with and without an asset directory; the archive must open, pass every CRC, have unique names and the required members in the required positions, its main document must equal the corresponding plain rendering modulo asset paths / TOC, and the asset table must be a bijection whose existing files are stored byte-identically. Held on everything generated.',
+         'Trusted: Python zipfile/ElementTree/json. Assets whose file is missing or remote get a path but no member (accepted).',
+         'DESIGN.md section 5, C09'),
  'C14': ('E3-hypothesis', 'property-based testing: byte-offset equation between generated source and exported outline notes (XML parser), and export/import round-trip relation on the HTML rendering',
          'Documents generated from heading trees with hostile section bodies are exported to OPML; the outline must parse, list preamble/headings/metadata in order, and every note must equal the exact source bytes between two headings (offsets known to the generator). For properly nested documents the complete HTML of the re-imported text must equal the original rendering and be a fixed point. Held on everything generated; one known finding (final-newline dependence) is reported as such.',
          'Trusted: Hypothesis, Python ElementTree (attribute-value normalisation is part of XML and therefore of the oracle).',
